@@ -17,7 +17,7 @@ ADDENDA = {
     "C16": " frps_barrage also sends 0..8 generated hostile requests of anonymous users (HTTP-shaped with hostile methods / targets / header names and values such as a bare 'Basic', unterminated heads, smuggled second requests; mangled TLS ClientHellos) to the vhost http / https, tcpmux and bind ports. frps_churn also draws visitor floods, twin re-logins, registrations beyond the limits, quota, and checks that bystander heartbeats keep being answered. frpc_stop_at_login: stop while the login is outstanding.",
     "C17": " live_first_message also keeps 0..3 peers stalled in the middle of their first frame while an honest login must complete within 3 s, and a peer that pipelines Login + encrypted Ping in one write (3 split variants). udp_content: payloads handed out by the udp packet decoder keep their content while further packets are decoded. nathole_datagram: the encrypted one-frame datagrams of hole punching (nathole.EncodeMessage / DecodeMessageInto): round trip under the same key, every proper prefix of a valid datagram is an error, 0..48 random bytes and correctly keyed envelopes around 0..24-byte plaintexts / hand-made frames with hostile type and length fields never panic.",
     "C18": " env_template: {{ .Envs.X }} with values containing '=', base64, leading / trailing space, empty. concurrent_strict: strict and non-strict loads of 1..120-proxy files running concurrently; the strict ones must still reject an unknown key.",
-    "C19": " reload_while_disconnected: the session is cut and logins are refused / dropped, one or two configurations are loaded meanwhile, logins are accepted again: exactly the last loaded set is registered on the new session. health_gating: the first registration of a proxy may be answered 1.5 / 2.6 s late, so the verdict changes while the answer is outstanding. health_flap_backoff: a backend flapping up/down; stop_during_send and stale_visitor_config are deterministic probes.",
+    "C19": " reload_while_disconnected: the session is cut and logins are refused / dropped, one or two configurations are loaded meanwhile, logins are accepted again: exactly the last loaded set is registered on the new session. health_gating: the first registration of a proxy may be answered 1.5 / 2.6 s late, so the verdict changes while the answer is outstanding. health_flap_backoff: a backend flapping up/down; stop_during_send and stale_visitor_config are deterministic probes. visitor_reload: a real frps, a real owner (stcp, sudp, xtcp proxies with echo backends) and a real frpc holding 0..3 visitors of kinds stcp / sudp / xtcp; 1..3 reloads replace the visitor set while tcp users hold connections and (half of the cases) udp users keep sending: removed visitors' ports are free within 3 s, the connection a user opened through an unchanged visitor before the reload still echoes afterwards, every configured visitor is bound within 13 s and carries an echo to the owner's backend, and frpc survives.",
     "C20": " controller_exchange also checks that each party's answer carries its own transaction id and that the receiver is still reading when the sender starts. controller_history: the same pair asks 7 or 9 times without a success report, so every behaviour of the controller's list is produced; each answer pair must satisfy the same oracle. discover_late_response: deterministic probe.",
 }
 
